@@ -35,6 +35,7 @@ RULE += ("; round 5: thresholds at or above the starting f (no step expected); 6
 RULE += ("; round 6: a wall clock that jumps by hours or days between readings on a third of the runs; another machine set up on the same output directory before the run")
 RULE += ("; round 8: chains of 31-40 residues; flatness criterion exactly 1; machines taken from a SequencePermutants front end that had been initialised with other settings")
 RULE += ("; round 9: 50 / 100 bins with lower edges 0.29, 0.57, 0.58; check periods 41, 64, 128, 150, 250, 256, 333; 8-residue chains over 10 bins (unreachable bins) checked every 3-5 steps")
+RULE += ("; round 10: thorough tier: single 12000-step iterations over two bins (ln-DOS beyond 5000); five iterations over two bins with 400-500 steps each (ln-DOS values with 7-8 significant digits in the files)")
 EXHAUSTIVE = {"quick": False, "thorough": False}
 ASSUMPTIONS = [
     "bin centres are (i+1/2)/M; a proposal is in range iff its bin index lies in [a, b-1] for the requested range [a/M, b/M]",
@@ -140,6 +141,11 @@ def cases(tier, seed):
             b = rng.randint(1, max(1, Mb - 1))         # excludes the top bin, where the run starts
             a = rng.randint(0, b - 1)
         easy = (i % 2 == 0)
+        if i % 160 == 7 and tier == "thorough":
+            # ln-DOS entries beyond 5000: a single 12000-step iteration over two bins
+            yield {"s": seq, "M": 2, "a": 0, "b": 2, "flatchk": 12000, "flatcrit": 0.0, "conv": "e0.6",
+                   "frozen": [], "hostile": False, "o": rng.randrange(1 << 30), "twice": False, "huge_g": True}
+            continue
         if i % 16 == 7:
             # a long first iteration with few bins: ln-DOS entries grow past ln(DBL_MAX) ~ 709.8 while ln f is still 1
             yield {"s": seq, "M": 2, "a": 0, "b": 2, "flatchk": 2600, "flatcrit": rng.choice([0.0, 0.2]), "conv": "e0.6",
@@ -599,7 +605,7 @@ def judge(case, rep, S):
     if case.get("hostile"):
         hostile = [[rng.choice(["lo", "hi"]) for _ in range(rng.randint(2, 24))]] + [[]]
         rep.cnt("hostile_tapes")
-    shim = Shim("%s/%s" % (ID, case["o"]), budget=20000, hostile=hostile)
+    shim = Shim("%s/%s" % (ID, case["o"]), budget=max(20000, 3 * STEP_BUDGET[_cfg["tier"]]), hostile=hostile)
     mon = Monitor(rep, case, shim)
     mon.truncated = False
     outdir = tempfile.mkdtemp(dir=_cfg["tmp"])
@@ -609,7 +615,7 @@ def judge(case, rep, S):
         rep.cnt("runs_on_chains_longer_than_30")
     if case.get("crit_one"):
         rep.cnt("runs_with_flatness_criterion_one")
-    for key_, cnt_ in (("five_iter", "runs_of_five_iterations_over_two_bins"), ("fine", "runs_with_50_or_100_bins"), ("odd_period", "runs_with_odd_check_periods"), ("unreachable", "runs_over_unreachable_bins")):
+    for key_, cnt_ in (("huge_g", "runs_with_ln_dos_beyond_5000"), ("five_iter", "runs_of_five_iterations_over_two_bins"), ("fine", "runs_with_50_or_100_bins"), ("odd_period", "runs_with_odd_check_periods"), ("unreachable", "runs_over_unreachable_bins")):
         if case.get(key_):
             rep.cnt(cnt_)
     if (a, b) != (0, Mb):
